@@ -33,7 +33,7 @@ def scratch(prefix="verif-"):
 
 
 def run(module, cfg, env=None, workers=None, timeout=900, simulate=None, depth=None, seed=None,
-        coverage=False, keep=False, deadlock=False, extra=None, dfs=False):
+        coverage=False, keep=False, deadlock=False, extra=None, dfs=False, tolerate=False):
     """Run TLC on spec/<module>.tla with spec/<cfg>. `env` entries are visible to the spec as IOEnv.X.
     Returns TLCResult. Raises TLCError on machinery failures."""
     out = scratch("tlc-")
@@ -94,6 +94,12 @@ def run(module, cfg, env=None, workers=None, timeout=900, simulate=None, depth=N
             r.coverage[mm.group(1)] = r.coverage.get(mm.group(1), 0) + int(mm.group(4))
     r.ok = (p.returncode == 0 and r.violated is None and "Model checking completed. No error has been found" in p.stdout) \
         or (simulate is not None and p.returncode == 0 and r.violated is None)
+    r.error = None
+    if not r.ok and r.violated is None and tolerate:
+        # a sampling run that stopped early (e.g. 32-bit overflow of TLC's integers on a large product): what it printed
+        # before stopping is still usable, the caller records the early stop
+        r.error = "\n".join(p.stdout.splitlines()[-15:])
+        return r
     if not r.ok and r.violated is None:
         tail = "\n".join([l for l in p.stdout.splitlines() if not l.startswith(("Parsing file", "Semantic processing", "Linting of", "  |", "<", "  line ", "The coverage", "End of statistics"))][-40:])
         if not keep:
